@@ -26,8 +26,19 @@ REDS = {"mean": np.mean, "median": np.median, "min": np.min, "max": np.max, "rms
 
 @st.composite
 def clouds(draw, min_n=1, max_n=30):
-    mode = draw(st.sampled_from(["lattice", "free", "clustered"]))
+    mode = draw(st.sampled_from(["lattice", "free", "clustered", "fullgrid"]))
     n = draw(st.integers(min_n, max_n))
+    if mode == "fullgrid":
+        # every node of an evenly spaced grid (a previously gridded data set fed back in), stored row-major or column-major, each axis ascending or descending
+        p, q = draw(st.integers(1, 6)), draw(st.integers(1, 6))
+        while p * q < min_n:
+            q += 1
+        dx, dy = draw(st.sampled_from([1.0, 0.5, 2.5, 1000.0])), draw(st.sampled_from([1.0, 0.5, 2.5, 1000.0]))
+        x0, y0 = draw(st.sampled_from([0.0, -3.0, 512000.0])), draw(st.sampled_from([0.0, 10.0, -7.52e6]))
+        xs = [x0 + i * dx for i in range(p)][:: draw(st.sampled_from([1, -1]))]
+        ys = [y0 + j * dy for j in range(q)][:: draw(st.sampled_from([1, -1]))]
+        pts = [[x, y] for y in ys for x in xs] if draw(st.booleans()) else [[x, y] for x in xs for y in ys]
+        return "free", pts
     if mode == "lattice":
         cells = draw(st.lists(st.tuples(st.integers(-12, 12), st.integers(-12, 12)), min_size=n, max_size=n, unique=True))
         pts = [[float(a), float(b)] for a, b in cells]
@@ -98,7 +109,7 @@ def knn_cases(draw):
         pts = pts + [list(pts[i])]
     n = len(pts)
     vals = draw(st.lists(st.one_of(st.integers(-100, 100).map(float), gen.finite(-1e3, 1e3)), min_size=n, max_size=n))
-    return dict(mode=mode, data=pts, values=vals, query=qs, k=draw(st.integers(1, n)), reduction=draw(st.sampled_from(list(REDS))),
+    return dict(mode=mode, data=pts, values=vals, query=qs, k=draw(st.one_of(st.just(1), st.integers(1, n))), reduction=draw(st.sampled_from(list(REDS))),
                 dshape=draw(st.sampled_from(blocks.shape_options(n))), qshape=draw(st.sampled_from(blocks.shape_options(len(qs)))),
                 extra=draw(st.booleans()), orders=draw(build.orders_strategy()), container=draw(st.sampled_from(build.CONTAINERS)), int_data=draw(st.booleans()),
                 coord_dtype=coord_dtype, table=draw(st.sampled_from(build.TABLES)), qtable=draw(st.sampled_from(build.TABLES)))
@@ -141,7 +152,7 @@ def check_knn(case, ctx):
     ctx.label(case["mode"], case["reduction"], "k1" if k == 1 else ("k_all" if k == d.shape[0] else "k_mid"), "qdim%d" % len(qshape))
     if compared < q.shape[0]:
         ctx.label("ties_excluded")
-    ctx.nt(compared > 0 and d.shape[0] >= 5 and (k >= 2 or len(qshape) == 2))
+    ctx.nt(compared > 0 and d.shape[0] >= 5)
 
 
 # ---------------------------------------------------------------- median_distance
